@@ -111,6 +111,9 @@ def gen_prime(rng, f, n):
     if "noreduce" in f.caps:
         ops.append("noreduce")
         weights.append(6)
+    if "mul_small" in f.caps:
+        ops.append("lazy")
+        weights.append(40)
     # directed cases first
     ones = top - 1
     directed = [("add", ones, ones), ("add", ones, 1), ("add", q, q), ("add", q - 1, 1), ("sub", 0, ones), ("sub", 0, 1),
@@ -219,6 +222,39 @@ def gen_prime(rng, f, n):
                     r = {"square": v * v, "neg": -v, "half": v * ((q + 1) // 2), "mul2": 2 * v, "mul32": 32 * v}[op] % q
                 exp.append("OK " + f.enc(r))
             out.append(Case(lines, exp, ["reprind:%d-reps" % len(reps)], "reprind"))
+        elif kind == "lazy":
+            # two or three cheap operations in a row: the first may leave limbs that are not fully carried (large
+            # mul_small, additions, doublings), the second takes a fast path whose bound analysis must still hold
+            a = hostile_raw(rng, f) if rng.randrange(3) else rng.getrandbits(f.bits)
+            da, va, _ = operand(rng, f, a)
+            lines = [T + "id >0 " + da]; exp = ["OK " + f.enc(va)]
+            cur = va
+            BIG = [0xFFFFFFFF, 0xFFFFFFFE, 0xFFFFFFFD, (1 << 31), (1 << 31) + 1, (1 << 32) - (1 << 16), rng.getrandbits(32) | (1 << 31)]
+            THR = [4095, 4096, 8191, 8192, 16383, 16384, 32767, 32768, 65535, 65536] + [rng.getrandbits(13) for _ in range(6)] + [rng.getrandbits(14), rng.getrandbits(15), rng.getrandbits(16), rng.getrandbits(12)]
+            nsteps = rng.choice([2, 2, 3])
+            for st in range(nsteps):
+                if st == 0:
+                    o = rng.choice(["mul_small_big", "mul_small_big", "mul_small_big", "add", "sub", "mul32", "mul16", "neg"])
+                else:
+                    o = rng.choice(["mul_small_thr", "mul_small_thr", "mul_small_thr", "mul_small_thr", "mul_small_big", "mul32", "mul8", "half", "mul2", "square"])
+                if o == "mul_small_big":
+                    x = rng.choice(BIG); cur = cur * x % q; lines.append(T + "mul_small >0 $0 %d" % x)
+                elif o == "mul_small_thr":
+                    x = rng.choice(THR); cur = cur * x % q; lines.append(T + "mul_small >0 $0 %d" % x)
+                elif o in ("add", "sub"):
+                    b = hostile_raw(rng, f); db, vb, _ = operand(rng, f, b)
+                    cur = (cur + vb) % q if o == "add" else (cur - vb) % q
+                    lines.append(T + "%s >0 $0 %s" % (o, db))
+                elif o == "neg":
+                    cur = -cur % q; lines.append(T + "neg >0 $0")
+                elif o == "half":
+                    cur = cur * ((q + 1) // 2) % q; lines.append(T + "half >0 $0")
+                elif o == "square":
+                    cur = cur * cur % q; lines.append(T + "square >0 $0")
+                else:
+                    cur = cur * UN_MULT[o] % q; lines.append(T + "%s >0 $0" % o)
+                exp.append("OK " + f.enc(cur))
+            out.append(Case(lines, exp, ["lazy:%d-steps" % nsteps], "lazy-carry sequence"))
         elif kind == "noreduce":
             a, b, c, d = (hostile_raw(rng, f) for _ in range(4))
             # The "not reduced" family documents that operands are normal field
@@ -256,9 +292,26 @@ def gen_prime(rng, f, n):
             da, va, _ = operand(rng, f, a)
             lines.append(T + "id >0 " + da); exp.append("OK " + f.enc(va)); regs[0] = va
             for step in range(ln):
-                op = rng.choice(["add", "sub", "mul", "square", "neg", "half", "mul2", "mul4", "mul8", "mul16", "mul32", "adda", "suba", "mula"])
+                op = rng.choice(["add", "sub", "mul", "square", "neg", "half", "mul2", "mul4", "mul8", "mul16", "mul32", "adda", "suba", "mula"]
+                                + (["mul_small", "mul_small"] if "mul_small" in f.caps else []) + (["mul3"] if "mul3" in f.caps else []))
                 dst = rng.randrange(4)
                 s1 = rng.choice(list(regs))
+                if op == "mul_small":
+                    # small multipliers around the internal thresholds of the backends, applied to library-produced
+                    # (possibly not fully carried) representations
+                    xk = rng.choice([0xFFFFFFFF, 0xFFFFFFFE, 1 << 31, (1 << 31) - 1, 7655, 7656, 7657, 8190, 8191, 8192, 8193, 16383, 16384, 32767, 32768,
+                                     65535, 65536, (1 << 20) - 1, 19, 38, 1, 0, rng.getrandbits(13), rng.getrandbits(14), rng.getrandbits(32)])
+                    r = regs[s1] * xk % q
+                    lines.append(T + "mul_small >%d $%d %d" % (dst, s1, xk))
+                    regs[dst] = r
+                    exp.append("OK " + f.enc(r))
+                    continue
+                if op == "mul3":
+                    r = regs[s1] * 3 % q
+                    lines.append(T + "mul3 >%d $%d" % (dst, s1))
+                    regs[dst] = r
+                    exp.append("OK " + f.enc(r))
+                    continue
                 if op in ("add", "sub", "mul", "adda", "suba", "mula"):
                     if rng.randrange(2):
                         s2 = rng.choice(list(regs)); d2 = "$%d" % s2; v2 = regs[s2]
@@ -447,7 +500,7 @@ def main(argv):
         m = run_sharded("c01", "gen", (names, per // NCPU + 1, nbin // NCPU + 1), [(c, exes[c]) for c in cfgs], a.seed)
         rep.merge(m)
         rep.require("add:sum>=2^w", "add:sum-second-fold", "sub:borrow", "sub:re-borrow", "mul:operand>=q", "add:operand>=2q",
-                    "mul:topbit", "mul:result-0/1/-1", "b127:mul-bit127-set", "xsquare:n=255", "mul_small:x=max", "chain:len8")
+                    "mul:topbit", "mul:result-0/1/-1", "b127:mul-bit127-set", "xsquare:n=255", "mul_small:x=max", "chain:len8", "lazy:2-steps")
     except Inconclusive as e:
         rep.incon.append(str(e))
     return rep.finish()
